@@ -635,6 +635,28 @@ func (c *FnCtx) evalCall(env *SpecEnv, e *Expr) (Val, error) {
 			return mathInt(args[0].Base()), nil
 		}
 		return Val{}, fmt.Errorf("base of non-slice")
+	case "as":
+		// as(T, x): x viewed at static type T (interface conversions keep the same value)
+		if len(e.Args) != 2 {
+			return Val{}, fmt.Errorf("as(T, x) takes a type and a value")
+		}
+		t := c.eng.resolveType(env.pkg, e.Args[0].String())
+		if t == nil {
+			return Val{}, fmt.Errorf("as: unknown type %s", e.Args[0])
+		}
+		v, err := c.eval(env, e.Args[1])
+		if err != nil {
+			return Val{}, err
+		}
+		return retypeSpec(v, t), nil
+	case "offset":
+		if err := evalArgs(); err != nil {
+			return Val{}, err
+		}
+		if args[0].K == KSlice {
+			return mathInt(args[0].Off()), nil
+		}
+		return Val{}, fmt.Errorf("offset of non-slice")
 	case "box":
 		if err := evalArgs(); err != nil {
 			return Val{}, err
